@@ -94,12 +94,12 @@ RULESETS = {
  'C03': LINKS + ['R-ACCESSOR-TABLE', ('R-FILTER-AGREE', ['Traph.get_page_links']), 'R-FRESH', 'R-DIRTY-WRITTEN', ('R-NULL-HEAD', PAGE_LINKS), 'R-ARGS-HONOURED', 'R-DEGREE-FLAGS',
          'R-PRIMITIVES'] + [('R-WRAPPERS', ['Traph.index_batch_crawl'])] + ['R-EVERY-ITEM', 'R-CLEAR-AGREE'] + READ_BASICS + G('C03'),
  'C04': RESOLVE + ['R-BST-AGREE', 'R-TAIL-PROTOCOL', 'R-READ-RESETS', 'R-WE-ATTACH', 'R-FRESH', 'R-DIRTY-WRITTEN', 'R-ARGS-HONOURED', 'R-PREFIX-EDIT', 'R-REFUSE-CLEAN',
-                   'R-LADDER-AGREE', 'R-PRIMITIVES'] + READ_BASICS + G('C04'),
- 'C05': WALK + RESOLVE + ['R-READ-RESETS', 'R-TAIL-PROTOCOL', 'R-ENUM-FILTERS', 'R-BST-AGREE', 'R-ACCUMULATE', 'R-PRIMITIVES'] + [('R-WRAPPERS', ['Traph.get_webentity_pages', 'Traph.get_webentity_crawled_pages'])] + READ_BASICS + ['R-REFUSE-CLEAN', 'R-PREFIX-EDIT', 'R-WE-ATTACH', 'R-EVERY-ITEM'] + G('C05'),
+                   'R-LADDER-AGREE', 'R-PRIMITIVES', 'R-VARIATIONS'] + READ_BASICS + G('C04'),
+ 'C05': WALK + RESOLVE + ['R-READ-RESETS', 'R-TAIL-PROTOCOL', 'R-ENUM-FILTERS', 'R-BST-AGREE', 'R-ACCUMULATE', 'R-PRIMITIVES'] + [('R-WRAPPERS', ['Traph.get_webentity_pages', 'Traph.get_webentity_crawled_pages'])] + READ_BASICS + ['R-REFUSE-CLEAN', 'R-PREFIX-EDIT', 'R-WE-ATTACH', 'R-EVERY-ITEM', 'R-ID'] + G('C05'),
  'C06': ['R-LADDER-AGREE', 'R-TRACK-AGREE', 'R-RULES-TO-APPLY', 'R-ID', 'R-RULE-INSTALL', 'R-WE-ATTACH', 'R-VARIATIONS', 'R-BST-AGREE', 'R-SKIP-CHILDLESS', 'R-PREFIX-EDIT',
          'R-FRESH', 'R-DIRTY-WRITTEN', 'R-PRIMITIVES'] + [('R-WRAPPERS', ['Traph.add_webentity_creation_rule'])] + ['R-OPEN-TABLE', ('R-READONLY', ['Traph.get_potential_prefix'])] + ['R-CLEAR-AGREE', 'R-LRU-ASSEMBLY', 'R-GEN-DRAINED'] + G('C06'),
  'C07': ['R-PROPAGATE', ('R-FILTER-AGREE', NETWORK), ('R-MEMO-KEY', NETWORK), ('R-NULL-HEAD', NETWORK), 'R-NO-STALE-CACHE', 'R-LRU-ASSEMBLY', 'R-ARGS-HONOURED', 'R-NEAREST-WE',
-         ('R-ACCUMULATE', NETWORK + ['Traph.index_batch_crawl_iter'])] + LINKS + READ_BASICS + [('R-WRAPPERS', NETWORK)] + ['R-NODE-ALIAS'] + ['R-EVERY-ITEM'] + G('C07'),
+         ('R-ACCUMULATE', NETWORK + ['Traph.index_batch_crawl_iter']), 'R-NULL-THRESHOLD'] + LINKS + READ_BASICS + [('R-WRAPPERS', NETWORK)] + ['R-NODE-ALIAS'] + ['R-EVERY-ITEM'] + G('C07'),
  'C08': [('R-NULL-HEAD', WE_LINKS), ('R-FILTER-AGREE', WE_FILTERS + WE_LINKS), ('R-MEMO-KEY', ['!Traph.get_webentities_*']), 'R-NO-STALE-CACHE', 'R-DISTINCT-DEGREE',
          'R-LRU-ASSEMBLY', 'R-ARGS-HONOURED', 'R-FRESH', 'R-DIRTY-WRITTEN', 'R-NEAREST-WE', ('R-ACCUMULATE', ['Traph.get_webentity_*'])] + WALK + LINKS + READ_BASICS + [('R-WRAPPERS', ['Traph.get_webentity_*'])] + G('C08'),
  'C09': [('R-TOKEN-PAIR', ['Traph.paginate_webentity_pages']), 'R-TOKEN-CODEC', 'R-ORDER', ('R-PAGINATE', ['Traph.paginate_webentity_pages'])] + WALK + MONO + READ_BASICS + G('C09'),
@@ -113,10 +113,10 @@ RULESETS = {
  'C14': ['R-READONLY', 'R-WRITE-API'],
  'C15': ['R-STORAGE-IFACE', 'R-STORAGE-SEM', 'R-OPEN-TABLE', 'R-CLEAR-AGREE', 'R-READ-RESETS', 'R-STORAGE-STATELESS', 'R-CLOSE', 'R-DIRTY-WRITTEN', 'R-GEOMETRY', 'R-PRIMITIVES'] + G('C15'),
  'C16': ['R-FRESH', 'R-DIRTY-WRITTEN', 'R-STACK-BLOCKS', 'R-NO-STALE-CACHE', ('R-FILTER-AGREE', NETWORK + WE_FILTERS), 'R-HEAD-REPOINT', ('R-MEMO-KEY', NETWORK), 'R-DIRECTION', 'R-LINK-PAIR',
-         'R-PRIMITIVES', 'R-READ-RESETS', 'R-ACCUMULATE', 'R-LAZY-REQUEST', 'R-STORAGE-IFACE', 'R-STORAGE-SEM'] + ['R-WRAPPERS'] + ['R-NODE-ALIAS'] + ['R-EVERY-ITEM'] + G('C16'),
+         'R-PRIMITIVES', 'R-READ-RESETS', 'R-ACCUMULATE', 'R-LAZY-REQUEST', 'R-STORAGE-IFACE', 'R-STORAGE-SEM', 'R-DISTINCT-DEGREE', ('R-MEMO-KEY', ['Traph.get_webentity_*'])] + ['R-WRAPPERS'] + ['R-NODE-ALIAS'] + ['R-EVERY-ITEM'] + G('C16'),
  'C17': ['R-VARIATIONS', 'R-LADDER-AGREE', 'R-ID', 'R-NO-STALE-CACHE', 'R-FRESH', 'R-DIRTY-WRITTEN'] + G('C17'),
  'C18': ['R-OPEN-TABLE', 'R-POINTEE-FIRST', 'R-GEOMETRY', 'R-NONE-CHECK', 'R-STORAGE-IFACE', 'R-HEAD-REPOINT', 'R-FRESH', 'R-DIRTY-WRITTEN', 'R-TAIL-PROTOCOL',
-         'R-STORAGE-STATELESS', 'R-PRIMITIVES', 'R-CLOSE', 'R-TRUNC-ORDER', ('R-FILTER-AGREE', NETWORK), 'R-ACCESSOR-TABLE'] + ['R-CHUNK-LAST', 'R-READ-RESETS', 'R-NULL-THRESHOLD'] + [g for g in G('C18') if g[0] != 'R-NULL-THRESHOLD'],
+         'R-STORAGE-STATELESS', 'R-PRIMITIVES', 'R-CLOSE', 'R-TRUNC-ORDER', ('R-FILTER-AGREE', NETWORK), 'R-ACCESSOR-TABLE', 'R-BST-AGREE'] + ['R-CHUNK-LAST', 'R-READ-RESETS', 'R-NULL-THRESHOLD'] + [g for g in G('C18') if g[0] != 'R-NULL-THRESHOLD'],
  'C19': ['R-CHUNK-LAST', 'R-ALLOC', 'R-GEOMETRY', 'R-METRICS', 'R-HEAD-REPOINT', 'R-LINK-PAIR', 'R-LINK-WALK', 'R-FRESH', 'R-DIRTY-WRITTEN', 'R-TAIL-PROTOCOL', 'R-READ-RESETS',
          'R-BST-AGREE', 'R-STORAGE-SEM', 'R-STORAGE-STATELESS', 'R-PRIMITIVES'] + ['R-CLEAR-AGREE', 'R-EVERY-ITEM', 'R-OPEN-TABLE', 'R-NULL-THRESHOLD', 'R-CLOSE', 'R-ACCESSOR-TABLE'] + ['R-STORAGE-IFACE'] + [g for g in G('C19') if g[0] != 'R-NULL-THRESHOLD'],
  'C20': [('R-NULL-HEAD', MOST_LINKED), 'R-DISTINCT-DEGREE', 'R-TOPK', 'R-LINK-PAIR', 'R-LINK-WALK', 'R-HEAD-REPOINT', ('R-ACCUMULATE', MOST_LINKED)] + WALK + READ_BASICS + [('R-WRAPPERS', ['Traph.get_webentity_most_linked_pages'])] + [('R-FILTER-AGREE', MOST_LINKED)] + G('C20'),
